@@ -4,6 +4,7 @@ namespace Restful
 namespace TieImp
 namespace T2
 open Imp
+set_option linter.unusedSimpArgs false
 
 theorem tokenize_path (X : ImpGen.Ext) (h : X.TrimRightSlashEnabled = true) (p : Str) :
     ImpGen.tokenizePath X p = some (tokenize p) := by
@@ -12,7 +13,7 @@ theorem tokenize_path (X : ImpGen.Ext) (h : X.TrimRightSlashEnabled = true) (p :
   by_cases hp : p = ['/']
   · simp [hp]
   · have : ¬ ['/'] = p := fun h => hp h.symm
-    simp [hp, this]
+    simp [hp, this, trim_eq]
 
 theorem concat_path (X : ImpGen.Ext) (h : X.TrimRightSlashEnabled = true) (a b : Str) :
     ImpGen.concatPath X a b = some (Restful.concatPath a b) := by
